@@ -464,6 +464,18 @@ def _state_SAI(res, w, T, count=True):
                         J.fail(mode, "value", "density_from_concentration %s%s = %r kg/m3, plain mode gives %r" % (vl, lab, m2, m), m2, m)
                     else:
                         res.outcomes["density_from_concentration|%s|value-ok" % mode] += 1
+            # the same plain call with the documented leading arguments given by position
+            for vl, call in (("molar mass by position", lambda: g(conc, T, M_H2SO4, maxiter=conv)), ("molar mass and density function by position", lambda: g(conc, T, M_H2SO4, f, maxiter=conv))):
+                v3, wn, anyw = _call(res, call)
+                if _is_exc(v3):
+                    J.fail("plain-positional", "value", "density_from_concentration %s%s raised %s, the keyword spelling gives %r" % (vl, lab, v3[1], m), v3[1], m)
+                    continue
+                m3 = J.value("plain-positional", v3, None, None, 0, vl + lab)
+                if m3 is not None:
+                    if abs(m3 - m) > 1e-9:
+                        J.fail("plain-positional", "value", "density_from_concentration %s%s = %r kg/m3, the keyword spelling gives %r" % (vl, lab, m3, m), m3, m)
+                    else:
+                        res.outcomes["density_from_concentration|plain-positional|value-ok"] += 1
     if count:
         res.states += 1
         res.nontrivial += 1
@@ -542,6 +554,11 @@ def _state_H(res, H0, Td, T0, T, count=True):
         if anyw and not _is_exc(v):
             J.fail(mode, "warning-spurious", "%s%s emitted a warning" % (vl, lab), True, False)
         res.symbols["henry:" + vl.split("(")[0].strip()] += 1
+    # two relations that differ (here: tabulated at another reference temperature) are different objects to ==, != and as table keys
+    if T0 is not None and T0 != 298.15:
+        v, _, _ = _call(res, lambda: [Henry(H0, Td) == Henry(H0, Td, T0), Henry(H0, Td) != Henry(H0, Td, T0), len({Henry(H0, Td): 1, Henry(H0, Td, T0): 2}), Henry(H0, Td, T0) == Henry(H0, Td, T0)])
+        if v != [False, True, 2, True]:
+            J.fail("plain", "distinct-relations-taken-for-the-same", "Henry(H, Tderiv) and Henry(H, Tderiv, T0)%s: [==, !=, entries of a table keyed by both, equal to an identical one] = %r" % (lab, v), v, [False, True, 2, True])
     # inverse helpers
     for P in (0.2, 1.0, 50.0):
         h = Henry(*hargs)
